@@ -77,6 +77,41 @@ Proof.
   apply str_eqb_true in H1. apply ostr_eq_true in H2. apply ostr_eq_true in H3. subst. reflexivity.
 Qed.
 
+(** ** parents: the dom's parent observation (owner element for an attribute) is the parent in the
+    tree (C12 territory: parent / child coherence), decidable *)
+Definition ParentsOk (doc : xdoc) : Prop :=
+  forall i, valid doc i -> kind doc i <> KNamespace ->
+    s_parent doc (Row i) = option_map Row (parent_node doc i).
+
+Definition snode_eqb (a b : snode) : bool :=
+  match a, b with
+  | Row i, Row j => i =? j
+  | NsOf e i, NsOf f j => (e =? f) && (i =? j)
+  | _, _ => false
+  end.
+
+Definition parents_ok_b (doc : xdoc) : bool :=
+  forallb (fun i =>
+    nkind_eqb (kind doc i) KNamespace ||
+    match s_parent doc (Row i), parent_node doc i with
+    | None, None => true
+    | Some (Row p), Some q => p =? q
+    | _, _ => false
+    end) (map N.of_nat (seq 0 (length doc))).
+
+Theorem parents_ok_b_sound doc : parents_ok_b doc = true -> ParentsOk doc.
+Proof.
+  intros H i Vi Hk. unfold parents_ok_b in H. rewrite forallb_forall in H.
+  assert (Hin : In i (map N.of_nat (seq 0 (length doc)))).
+  { apply in_map_iff. exists (N.to_nat i). unfold valid in Vi. split; [lia|]. apply in_seq. lia. }
+  specialize (H i Hin). cbn beta in H.
+  destruct (nkind_eqb (kind doc i) KNamespace) eqn:E; [apply nkind_eqb_true in E; contradiction|].
+  cbn [orb] in H.
+  destruct (s_parent doc (Row i)) as [[p|e j]|]; destruct (parent_node doc i) as [q|]; try discriminate.
+  - apply N.eqb_eq in H. subst. reflexivity.
+  - reflexivity.
+Qed.
+
 (** ** one-step unfolding equations of the specification evaluator *)
 Section SpecEqs.
 Variable doc : xdoc.
@@ -106,6 +141,10 @@ Lemma s_rel_path_eq s ops start :
 Proof. reflexivity. Qed.
 
 Lemma s_step_current n : s_step doc ns StepCurrent n = Some [n].
+Proof. reflexivity. Qed.
+
+Lemma s_step_parent n :
+  s_step doc ns StepParent n = Some (match s_parent doc n with Some p => [p] | None => [] end).
 Proof. reflexivity. Qed.
 
 Lemma s_step_test_nopred a t n :
@@ -139,6 +178,7 @@ Variable doc : xdoc.
 Hypothesis Hinv : DocInv doc.
 Hypothesis Hshape : SpecShape doc.
 Hypothesis Hnames : NamesOk doc.
+Hypothesis Hparents : ParentsOk doc.
 Let Hwf := inv_wf doc Hinv.
 
 Variable ns : list (option str * str).
@@ -225,9 +265,12 @@ Qed.
 (** ** axes of the supported steps *)
 Definition fwd_axis (a : axis_spec) : Prop :=
   match axis_of a with
-  | AxChild | AxAttribute | AxCurrent | AxDescendant | AxDescendantOrSelf => True
+  | AxChild | AxAttribute | AxCurrent | AxDescendant | AxDescendantOrSelf
+  | AxParent | AxAncestor | AxAncestorOrSelf => True
   | _ => False
   end.
+
+Definition same_set (l1 l2 : list node) : Prop := forall x, In x l1 <-> In x l2.
 
 Lemma axis_of_abbreviated s :
   axis_of (AxisAbbreviated s) = if str_eqb s s_at then AxAttribute else AxChild.
@@ -240,57 +283,98 @@ Proof.
   rewrite (sh_attrs doc Hshape i Vi); [reflexivity|]. intros Hk. rewrite Hk in E. discriminate.
 Qed.
 
+(** the parent chain *)
+Lemma s_parent_agrees i : good doc i -> s_parent doc (Row i) = option_map Row (xp_parent doc i).
+Proof. intros [Vi Hk]. exact (Hparents i Vi Hk). Qed.
+
+Lemma ancestors_agree : forall fuel i l, good doc i ->
+  ancestor_fuel doc fuel i = Ok l -> ancestors_fuel doc fuel (Row i) = map Row l.
+Proof.
+  induction fuel as [|f IH]; intros i l Gi E; cbn [ancestor_fuel ancestors_fuel] in *; [discriminate|].
+  rewrite (s_parent_agrees i Gi). destruct (xp_parent doc i) as [p|] eqn:Ep; cbn [option_map].
+  - destruct (ancestor_fuel doc f p) as [lp| | |] eqn:Ef; cbn [bind] in E; try discriminate.
+    inversion E; subst. cbn [map]. f_equal. apply IH; [|exact Ef].
+    apply (good_parent doc Hinv i p Gi). exact Ep.
+  - inversion E. reflexivity.
+Qed.
+
+Lemma nodeset_rows_set l : exists l', nodeset doc (map Row l) = map Row l' /\ same_set l' l.
+Proof.
+  exists (n_nodeset l). split; [apply nodeset_rows|]. intros x. apply n_nodeset_in.
+Qed.
+
 Lemma fwd_axis_agrees a i : good doc i -> fwd_axis a ->
-  exists l, axis_nodes doc a i = Ok l /\ Forall (good doc) l /\ s_axis doc (axis_of a) (Row i) = map Row l.
+  exists l l', axis_nodes doc a i = Ok l /\ Forall (good doc) l /\
+               s_axis doc (axis_of a) (Row i) = map Row l' /\ same_set l' l.
 Proof.
   intros Gi Hf. pose proof (good_valid doc i Gi) as Vi.
   assert (Hgood : forall l, axis_nodes doc a i = Ok l -> Forall (good doc) l).
   { intros l El. assert (Hns : not_ns_axis a = true).
     { destruct a as [[]|]; try reflexivity. exfalso. exact Hf. }
     destruct (good_axis doc Hinv a i Hns Gi) as [l' [El' Hl']]. rewrite El in El'. inversion El'. subst. exact Hl'. }
+  assert (Hsame : forall l, same_set l l) by (intros l x; reflexivity).
   destruct a as [ax|s].
   - destruct ax; try (exfalso; exact Hf); cbn [axis_of].
-    + (* attribute *) eexists. split; [reflexivity|]. split; [apply Hgood; reflexivity|apply attribute_axis_agrees; exact Vi].
+    + (* ancestor *)
+      destruct (ancestor_ok doc Hwf (good doc) (good_valid doc) (good_parent doc Hinv) i Gi) as [l [El _]].
+      destruct (nodeset_rows_set l) as [l' [E' Hs']].
+      exists l, l'. split; [exact El|]. split; [apply Hgood; exact El|]. split; [|exact Hs'].
+      cbn [s_axis]. unfold ancestors, fuel0. unfold ancestor, nav_fuel in El.
+      rewrite (ancestors_agree _ i l Gi El). exact E'.
+    + (* ancestor-or-self *)
+      destruct (ancestor_ok doc Hwf (good doc) (good_valid doc) (good_parent doc Hinv) i Gi) as [l [El _]].
+      destruct (nodeset_rows_set (i :: l)) as [l' [E' Hs']].
+      exists (i :: l), l'. split; [cbn [axis_nodes]; unfold ancestor_and_self; rewrite El; reflexivity|].
+      split; [apply Hgood; cbn [axis_nodes]; unfold ancestor_and_self; rewrite El; reflexivity|]. split; [|exact Hs'].
+      cbn [s_axis]. unfold ancestors, fuel0. unfold ancestor, nav_fuel in El.
+      rewrite (ancestors_agree _ i l Gi El). exact E'.
+    + (* attribute *) exists (attributes doc i), (attributes doc i). split; [reflexivity|].
+      split; [apply Hgood; reflexivity|]. split; [apply attribute_axis_agrees; exact Vi|apply Hsame].
     + (* child *) destruct (axis_child_agrees doc Hshape i Vi) as [E1 E2].
-      eexists. split; [exact E1|]. split; [apply Hgood; exact E1|exact E2].
+      eexists _, _. split; [exact E1|]. split; [apply Hgood; exact E1|]. split; [exact E2|apply Hsame].
     + destruct (axis_descendant_agrees doc Hinv Hshape i Vi) as [E1 E2].
-      eexists. split; [exact E1|]. split; [apply Hgood; exact E1|exact E2].
+      eexists _, _. split; [exact E1|]. split; [apply Hgood; exact E1|]. split; [exact E2|apply Hsame].
     + destruct (axis_descendant_or_self_agrees doc Hinv Hshape i Vi) as [E1 E2].
-      eexists. split; [exact E1|]. split; [apply Hgood; exact E1|exact E2].
-    + eexists. split; [reflexivity|]. split; [apply Hgood; reflexivity|reflexivity].
+      eexists _, _. split; [exact E1|]. split; [apply Hgood; exact E1|]. split; [exact E2|apply Hsame].
+    + (* parent *) exists (opt_list (xp_parent doc i)), (opt_list (xp_parent doc i)). split; [reflexivity|].
+      split; [apply Hgood; reflexivity|]. split; [|apply Hsame].
+      cbn [s_axis]. rewrite (s_parent_agrees i Gi). destruct (xp_parent doc i); reflexivity.
+    + exists [i], [i]. split; [reflexivity|]. split; [apply Hgood; reflexivity|]. split; [reflexivity|apply Hsame].
   - rewrite axis_of_abbreviated. cbn [axis_nodes]. destruct (str_eqb s s_at) eqn:Es.
-    + eexists. split; [reflexivity|]. split; [|apply attribute_axis_agrees; exact Vi].
+    + exists (attributes doc i), (attributes doc i). split; [reflexivity|]. split; [|split; [apply attribute_axis_agrees; exact Vi|apply Hsame]].
       apply Hgood. cbn [axis_nodes]. rewrite Es. reflexivity.
     + destruct (axis_child_agrees doc Hshape i Vi) as [E1 E2]. cbn [axis_nodes] in E1.
-      eexists. split; [exact E1|]. split; [|exact E2].
+      eexists _, _. split; [exact E1|]. split; [|split; [exact E2|apply Hsame]].
       apply Hgood. cbn [axis_nodes]. rewrite Es. exact E1.
 Qed.
 
 (** filtering by the node test *)
 Lemma filter_agrees a t : test_bound t -> forall l, Forall (good doc) l ->
-  exists r, filter_res (eval_node_test doc ns a t) l = Ok r /\ incl r l /\
-            opt_filter (s_test doc ns (axis_of a) t) (map Row l) = Some (map Row r).
+  exists r, filter_res (eval_node_test doc ns a t) l = Ok r /\
+            opt_filter (s_test doc ns (axis_of a) t) (map Row l) = Some (map Row r) /\
+            (forall x, In x r <-> In x l /\ eval_node_test doc ns a t x = Ok true).
 Proof.
   intros Hb l. induction l as [|x t' IH]; intros Hg; cbn [filter_res opt_filter map].
-  - exists []. split; [reflexivity|]. split; [apply incl_refl|reflexivity].
-  - inversion Hg as [|x' t'' Gx Gt]; subst. destruct (IH Gt) as [r [Er [Hincl Eo]]].
+  - exists []. split; [reflexivity|]. split; [reflexivity|]. intros y. split; [intros []|intros [[] _]].
+  - inversion Hg as [|x' t'' Gx Gt]; subst. destruct (IH Gt) as [r [Er [Eo Hr]]].
     pose proof (node_test_agrees a t x Gx Hb) as Hrel. unfold test_rel in Hrel.
-    destruct (eval_node_test doc ns a t x) as [b| | |]; try contradiction.
+    destruct (eval_node_test doc ns a t x) as [b| | |] eqn:Et; try contradiction.
     destruct (s_test doc ns (axis_of a) t (Row x)) as [b'|]; try contradiction. subst b'.
-    rewrite Er, Eo. cbn [bind]. exists (if b then x :: r else r). split; [reflexivity|]. split.
-    + destruct b; [intros y [->|Hy]; [left; reflexivity|right; apply Hincl; exact Hy]|intros y Hy; right; apply Hincl; exact Hy].
-    + destruct b; reflexivity.
+    rewrite Er, Eo. cbn [bind]. exists (if b then x :: r else r). split; [reflexivity|]. split; [destruct b; reflexivity|].
+    intros y. destruct b; cbn [In]; rewrite Hr; split.
+    + intros [->|[H1 H2]]; [split; [left; reflexivity|exact Et]|split; [right; exact H1|exact H2]].
+    + intros [[->|H1] H2]; [left; reflexivity|right; split; assumption].
+    + intros [H1 H2]. split; [right; exact H1|exact H2].
+    + intros [[->|H1] H2]; [rewrite Et in H2; discriminate|split; assumption].
 Qed.
 
 (** ** steps without predicates *)
 Definition simple_step (s : step) : Prop :=
   match s with
   | StepCurrent => True
-  | StepParent => False
+  | StepParent => True
   | StepTest a t preds => preds = ExprNil /\ fwd_axis a /\ test_bound t
   end.
-
-Definition same_set (l1 l2 : list node) : Prop := forall x, In x l1 <-> In x l2.
 
 Lemma axis_sort_same_set a l : same_set (axis_sort doc a l) l.
 Proof.
@@ -299,27 +383,35 @@ Proof.
   - apply sort_in.
 Qed.
 
-Lemma fwd_not_reverse a : fwd_axis a -> is_reverse (axis_of a) = false.
-Proof. unfold fwd_axis. destruct (axis_of a); intros H; try reflexivity; destruct H. Qed.
-
 Theorem step_agrees s n c : c_ns c = ns -> simple_step s -> good doc n ->
   exists lm l', eval_step doc s n c = (Ok lm, c) /\ Forall (good doc) lm /\
                 s_step doc ns s (Row n) = Some (map Row l') /\ same_set l' lm.
 Proof.
   intros Hns Hs Gn. destruct s as [a t preds| |]; cbn [simple_step] in Hs.
   - destruct Hs as [-> [Hf Hb]]. rewrite eval_step_test. rewrite Hns.
-    destruct (fwd_axis_agrees a n Gn Hf) as [l [El [Hl Es]]].
-    destruct (filter_agrees a t Hb l Hl) as [r [Er [Hincl Eo]]].
+    destruct (fwd_axis_agrees a n Gn Hf) as [l [l' [El [Hl [Es Hsame]]]]].
+    assert (Hl' : Forall (good doc) l').
+    { apply Forall_forall. intros x Hx. rewrite Forall_forall in Hl. apply Hl. apply Hsame. exact Hx. }
+    destruct (filter_agrees a t Hb l Hl) as [r [Er [_ Hr]]].
+    destruct (filter_agrees a t Hb l' Hl') as [r' [_ [Eo' Hr']]].
     rewrite El. cbn [bind]. rewrite Er. rewrite eval_predicates_nil.
-    exists (axis_sort doc a r), r. split; [reflexivity|]. split.
+    exists (axis_sort doc a r), (if is_reverse (axis_of a) then rev r' else r'). split; [reflexivity|]. split.
     + apply Forall_forall. intros x Hx. apply (axis_sort_same_set a r) in Hx.
-      rewrite Forall_forall in Hl. apply Hl. apply Hincl. exact Hx.
+      rewrite Forall_forall in Hl. apply Hl. apply Hr. exact Hx.
     + split.
-      * rewrite s_step_test_nopred, Es, Eo. rewrite (fwd_not_reverse a Hf). reflexivity.
-      * intros x. symmetry. apply axis_sort_same_set.
+      * rewrite s_step_test_nopred, Es, Eo'. destruct (is_reverse (axis_of a)); [rewrite map_rev|]; reflexivity.
+      * intros x. rewrite (axis_sort_same_set a r x), Hr.
+        assert (Hx : In x (if is_reverse (axis_of a) then rev r' else r') <-> In x r').
+        { destruct (is_reverse (axis_of a)); [symmetry; apply in_rev|reflexivity]. }
+        rewrite Hx, Hr'. split; intros [H1 H2]; (split; [apply Hsame; exact H1|exact H2]).
   - rewrite eval_step_current. exists [n], [n]. split; [reflexivity|]. split; [constructor; [exact Gn|constructor]|].
     split; [apply s_step_current|intros x; tauto].
-  - destruct Hs.
+  - rewrite eval_step_parent. exists (opt_list (xp_parent doc n)), (opt_list (xp_parent doc n)).
+    split; [reflexivity|]. split.
+    + destruct (xp_parent doc n) as [p|] eqn:Ep; cbn [opt_list]; [|constructor].
+      constructor; [apply (good_parent doc Hinv n p Gn); exact Ep|constructor].
+    + split; [|intros x; tauto]. rewrite s_step_parent, (s_parent_agrees n Gn).
+      destruct (xp_parent doc n); reflexivity.
 Qed.
 
 (** ** set-level reading of steps and paths *)
